@@ -166,8 +166,37 @@ let jets : (sval -> sval option option) option array Lazy.t = lazy (
 
 exception Unknown_jet of int
 
+(* observation hook: the left argument of the last eq_* jet call (used to pin computed values) *)
+let eq_jets : bool array Lazy.t = lazy (
+  let rows = Model.jet_rows in
+  let a = Array.make (List.length rows) false in
+  List.iter (fun (((((idx, name), _), _), _), _) ->
+      let s = ocaml_string name in
+      a.(int_of_n idx) <- String.length s > 3 && String.sub s 0 3 = "eq_") rows;
+  a)
+let last_eq : sval option ref = ref None
+let armed : bool ref = ref false   (* set when witness::EXPECT has just been read *)
+let rec leaf_bits (v : sval) (acc : bool list) : bool list =
+  match v with
+  | VP (a, b) -> leaf_bits a (leaf_bits b acc)
+  | VL VU -> false :: acc
+  | VR VU -> true :: acc
+  | _ -> acc
+let hex_of_bits (l : bool list) : string =
+  let len = List.length l in
+  let pad = (4 - len mod 4) mod 4 in
+  let l = List.init pad (fun _ -> false) @ l in
+  let b = Buffer.create 16 in
+  let rec go = function
+    | a :: b1 :: c :: d :: r ->
+      let v = (if a then 8 else 0) + (if b1 then 4 else 0) + (if c then 2 else 0) + (if d then 1 else 0) in
+      Buffer.add_char b "0123456789abcdef".[v]; go r
+    | _ -> () in
+  go l; Buffer.contents b
+
 let jet_oracle (j : n) (a : sval) : sval option =
   let i = int_of_n j in
+  if !armed && (Lazy.force eq_jets).(i) then (armed := false; match a with VP (x, _) -> last_eq := Some x | _ -> ());
   match (Lazy.force jets).(i) with
   | Some f -> (match f a with Some r -> r | None -> None)
   | None -> raise (Unknown_jet i)
@@ -181,13 +210,16 @@ let handle (line : string) : string =
     let e = expr_of ast in
     let a = lookup_fn (bindings_of args) in
     let w0 = lookup_fn (bindings_of wits) in
-    let w n = match w0 n with Some v -> Some (structural v) | None -> None in
+    let w n = (if name_of n = "EXPECT" then armed := true);
+      match w0 n with Some v -> Some (structural v) | None -> None in
     (try
+       last_eq := None; armed := false;
        let s = sem_program jet_oracle w a e in
+       let obs = match !last_eq with Some v -> hex_of_bits (leaf_bits v []) | None -> "none" in
        let ev = match compile_program (int_of dbg <> 0) a e with
          | Ok t -> out_str (eval jet_oracle w t VU)
          | Err -> "cerr" | Panic -> "panic" in
-       Printf.sprintf "(sem %s) (eval %s)" (out_str s) ev
+       Printf.sprintf "(sem %s) (eval %s) (lasteq %s)" (out_str s) ev obs
      with Unknown_jet i -> Printf.sprintf "(unknown-jet %d)" i)
   | "knownjets", [] ->
     let a = Lazy.force jets in
